@@ -72,11 +72,13 @@ def run_worker(tmpdir, module, cond, sl, twin, timeout, path_timeout, exclude, i
     json.dump(spec, open(sp, "w"))
     res, out = run_json([PY, "-m", "vp.worker", sp], "@@RESULT ", timeout * 2 + 120)
     if res is None:
+        # a worker that had to be killed at the hard limit (twice its budget + 2 min) did not decide anything: inconclusive,
+        # reported as such (never a pass, never a violation); any other loss of a worker is a harness error
         res = {
             "cond": cond,
             "slice": sl,
             "twin": twin,
-            "verdict": "HARNESS_ERROR",
+            "verdict": "CANNOT_CONFIRM" if out.startswith("TIMEOUT after") else "HARNESS_ERROR",
             "paths": 0,
             "z3_queries": 0,
             "solver_s": 0.0,
